@@ -19,6 +19,7 @@ import itertools
 import json
 import multiprocessing as mp
 import os
+import signal
 import sys
 import time
 import traceback
@@ -27,6 +28,20 @@ VERIF = os.path.dirname(os.path.dirname(os.path.abspath(__file__)))
 NPROC = int(os.environ.get("VERIF_JOBS", "16"))
 # runs against scratch trees (bin/mutant) must not overwrite the evidence of /repo
 OUT = "/tmp/verif-scratch-out" if os.environ.get("VERIF_NO_EVIDENCE") else VERIF
+
+
+CASE_TIMEOUT = int(os.environ.get("VERIF_CASE_TIMEOUT", "600"))
+
+
+class CaseTimeout(BaseException):
+    pass
+
+
+def _on_alarm(signum, frame):
+    raise CaseTimeout()
+
+
+signal.signal(signal.SIGALRM, _on_alarm)
 
 
 class Result:
@@ -161,9 +176,18 @@ def _worker(args):
             break
         _t0 = time.time()
         try:
-            res = mod.run_case(case)
+            signal.alarm(CASE_TIMEOUT)
+            try:
+                res = mod.run_case(case)
+            finally:
+                signal.alarm(0)
             if os.environ.get("VERIF_TIMING") and time.time() - _t0 > float(os.environ["VERIF_TIMING"]):
                 print("SLOW %.1fs %s" % (time.time() - _t0, json.dumps(case, default=str)[:300]), flush=True)
+        except CaseTimeout:
+            res = Result()
+            res.violate("timeout:%s" % case.get("kind", ""), "case did not finish within %d s "
+                        "(hang / livelock of the code under test?)" % CASE_TIMEOUT,
+                        observed="timeout")
         except Exception as e:  # uncaught => behaviour the oracle never saw on the clean tree
             res = Result()
             res.violate(
